@@ -91,6 +91,11 @@ func (r *Response) sendBackResponse(
 		return
 	default:
 		//TODO: no binding
+		// no supported binding to deliver the message with: hand it back in the HTTP body instead of sending nothing
+		if err := xml.Write(w, respData); err != nil {
+			r.ErrorFunc(err)
+			return
+		}
 	}
 }
 
